@@ -544,3 +544,41 @@ func init() {
 		}
 	}
 }
+
+// ---- towers through the expression-reference position
+//
+// max_by(@, &length(max_by(@, &length(...)))) over a document nested as deeply as the expression: the
+// per-element builtins evaluate their key expression once per element - a helper that evaluates the
+// first element's key twice (once to find the key type, once in the loop) doubles the cost at every
+// level.
+func init() {
+	type w struct {
+		name string
+		f    func(string) string
+	}
+	wraps := []w{
+		{"max_by", func(x string) string { return "max_by(@, &length(" + x + "))" }},
+		{"min_by", func(x string) string { return "min_by(@, &length(" + x + "))" }},
+		{"sort_by", func(x string) string { return "sort_by(@, &length(" + x + "))[0]" }},
+		{"group_by", func(x string) string { return "values(group_by(@, &to_string(length(" + x + "))))[0][0]" }},
+		{"map", func(x string) string { return "map(&" + x + ", @)[0]" }},
+		{"filter", func(x string) string { return "[?" + x + "][0]" }},
+		{"projection", func(x string) string { return "[*].[" + x + "][0][0]" }},
+		{"max_by-string-key", func(x string) string { return "max_by(@, &to_string(length(" + x + ")))" }},
+		{"sort_by-not_null", func(x string) string { return "sort_by(@, &length(not_null(" + x + ", @)))[0]" }},
+		{"let", func(x string) string { return "[*].[let $e = @ in " + x + "][0][0]" }},
+	}
+	for _, wr := range wraps {
+		wr := wr
+		c09Scale = append(c09Scale, scaleFamily{"expref-tower-" + wr.name, func(n int) (string, any) {
+			if n > 1500 {
+				n = 1500
+			}
+			var doc any = json.Number("1")
+			for i := 0; i < n+2; i++ {
+				doc = []any{doc}
+			}
+			return tower(n, "@", wr.f), doc
+		}})
+	}
+}
